@@ -4,7 +4,7 @@ import re
 import sys
 import z3
 sys.path.insert(0, os.path.dirname(os.path.dirname(os.path.abspath(__file__))))
-from props.common import main, Run, run_child, ALL_SIDECARS  # noqa: E402
+from props.common import witnesses_for, main, Run, run_child, ALL_SIDECARS  # noqa: E402
 from pyvc.calls import Contract  # noqa: E402
 
 SIDE = ALL_SIDECARS
@@ -43,7 +43,7 @@ def make_replayer(run):
         if "d" not in cache:
             cache["d"] = run_child(run.repo.root, "const_diff.py", [str(run.seed)])
         d = cache["d"]
-        fl = [f for f in d.get("failures", []) if relevant(o, f)]
+        fl = witnesses_for("C15", o, [f for f in d.get("failures", []) if relevant(o, f)], lambda f: f"const_diff:{f['kind']}:{f.get('note') or f['through']}")
         if fl:
             f = fl[0]
             return {"reproduced": True, "value": f["value"], "kind": f["kind"], "arrived_as": f["arrived"], "through": f["through"],
